@@ -90,6 +90,7 @@ type Executor struct {
 	ShardBits, ShardID int
 	MaxSwitches int
 	shallowTypes []types.Type
+	usesLower    bool
 	// witnesses: solver models of complete paths, for validating the translation against the native build
 	WitnessMax int
 	Witnesses  []Witness
@@ -273,6 +274,9 @@ func (ex *Executor) ndVars(st *State) []*smt.Term {
 			if v, ok := vars[r.T.Name]; ok {
 				out = append(out, v)
 				delete(vars, r.T.Name)
+				if v.Sort == smt.String && smt.StrAsInt && ex.usesLower {
+					out = append(out, smt.Lower(v))
+				}
 			}
 		}
 	}
